@@ -21,8 +21,13 @@ What is proved (for all copies, digests, truncation points, histories):
   handshake steps each of which keeps or raises every copy's frontier and strictly raises one has at
   most `n · ((V+1)² − 1)` steps.
 
-*Partial*: the graph argument (connected peers, fair schedule ⇒ a lagging pair eventually shakes
-hands) is not mechanised; it is exercised by the `cluster` suite's fair suffix and its monitors.
+* `C01_converges_within_bounded_sweeps`: if every sweep that starts from a non-converged state
+  contains a progressing handshake (fairness), some sweep boundary within the first
+  `n · ((V+1)² − 1) + 1` is converged.
+
+*Partial*: that a sweep over a connected graph always contains a pair (holder ahead, lagging copy)
+to which `C01_handshake_step_progress` applies is argued in DESIGN.md, not mechanised; it is
+exercised by the `cluster` suite's fair suffix and its monitors (and fails in the KF-3 situation).
 -/
 import ChitchatModel.Props.C14
 import ChitchatModel.Props.C03
@@ -247,6 +252,44 @@ theorem C01_progress_run_bounded (V n : Nat) (run : List (List (Nat × Nat)))
 
 example : ProgressRun [[(0, 1), (0, 0)], [(0, 1), (0, 1)], [(2, 1), (0, 1)]] := by
   simp [ProgressRun, StepLt, StepLe, frontierLt, frontierLe]
+
+/-! ### Fair sweeps -/
+
+/-- every copy of the member is at the owner's max version `V` -/
+def ConvergedAt (V : Nat) (copies : List (Nat × Nat)) : Prop := ∀ f ∈ copies, f.2 = V
+
+/-- A schedule cut into sweeps (e.g. one loss-free handshake between every ordered pair of connected
+nodes): `states` are the copies' frontiers at the sweep boundaries. Fairness is the hypothesis that a
+sweep starting from a non-converged state contains a progressing handshake — which
+`C01_handshake_step_progress` provides for the pair (a holder that is ahead, a lagging copy)
+whenever that pair shakes hands in the sweep. -/
+def FairSweeps (V : Nat) : List (List (Nat × Nat)) → Prop
+  | [] => True
+  | [_] => True
+  | a :: b :: t => (¬ ConvergedAt V a → StepLt a b) ∧ FairSweeps V (b :: t)
+
+theorem progressRun_of_fair (V : Nat) : ∀ (states : List (List (Nat × Nat))),
+    FairSweeps V states → (∀ s ∈ states.dropLast, ¬ ConvergedAt V s) → ProgressRun states
+  | [], _, _ => trivial
+  | [_], _, _ => trivial
+  | a :: b :: t, hf, hn => by
+    obtain ⟨h1, h2⟩ := hf
+    refine ⟨h1 (hn a (by simp [List.dropLast])), ?_⟩
+    apply progressRun_of_fair V (b :: t) h2
+    intro s hs
+    apply hn s
+    simp only [List.dropLast_cons_cons]
+    exact List.mem_cons_of_mem _ hs
+
+/-- **C01 (convergence under fair sweeps).** With `n` copies within the owner's `V` versions, after at
+most `n · ((V+1)² − 1) + 1` fair sweeps some sweep boundary is converged: a run of sweep boundaries
+none of which (but possibly the last) is converged cannot be longer than that. -/
+theorem C01_converges_within_bounded_sweeps (V n : Nat) (states : List (List (Nat × Nat)))
+    (hlen : ∀ c ∈ states, c.length = n) (hb : ∀ c ∈ states, AllBounded V c)
+    (hfair : FairSweeps V states) (hn : ∀ s ∈ states.dropLast, ¬ ConvergedAt V s) :
+    states.length ≤ n * ((V + 1) * (V + 1) - 1) + 1 :=
+  C01_progress_run_bounded V n states hlen hb (progressRun_of_fair V states hfair hn)
+
 
 /-! ### Non-vacuity -/
 /- the hypotheses of `C01_handshake_step_progress` on a concrete one-member state -/
